@@ -432,4 +432,10 @@ def s2_trace_geom():
     bad = tracer.selfcheck_geom(traced)
     if bad:
         return f"tracer self-check failed for {bad}"
+    # the five counting kernels of stats.py on two symbolic cosines (bridge: lean/Bridge/Kernels.lean)
+    tk = tracer.trace_kernels()
+    tracer.emit_kernels(tk)
+    bad = tracer.selfcheck_kernels(tk)
+    if bad:
+        return f"tracer self-check failed for {bad}"
     return None
